@@ -280,6 +280,7 @@ func (c *Collection) CreateIndex(indexName, columnName string, fn func(r Reader)
 	buffer := commit.NewBuffer(c.Count())
 	reader := commit.NewReader()
 	for chunk := commit.Chunk(0); int(chunk) < chunks; chunk++ {
+		simYield(c, simIndexBuild, uint32(chunk))
 		if column.Snapshot(chunk, buffer) {
 			reader.Seek(buffer)
 			index.Apply(chunk, reader)
@@ -321,6 +322,7 @@ func (c *Collection) CreateSortIndex(indexName, columnName string) error {
 	buffer := commit.NewBuffer(c.Count())
 	reader := commit.NewReader()
 	for chunk := commit.Chunk(0); int(chunk) < chunks; chunk++ {
+		simYield(c, simIndexBuild, uint32(chunk))
 		if column.Snapshot(chunk, buffer) {
 			reader.Seek(buffer)
 			index.Apply(chunk, reader)
